@@ -4,8 +4,8 @@
 
 #[cfg(not(target_family = "wasm"))]
 mod process_common;
-/// Verification hook (feature `verif-hooks`): the capture loop on a caller-supplied reader.
-#[cfg(all(feature = "verif-hooks", not(target_family = "wasm")))]
+/// Verification hook (feature `verif-hooks-capture`): the capture loop on a caller-supplied reader.
+#[cfg(all(feature = "verif-hooks-capture", not(target_family = "wasm")))]
 pub use process_common::verif_read_captured_stream;
 
 #[cfg(windows)]
